@@ -316,7 +316,8 @@ pub fn drive(args: &[String]) {
             let pick_ix = |rng: &mut Rng| -> J {
                 if ixs.is_empty() || rng.chance(1, 6) {
                     // possibly invalid
-                    json!({"f": rng.below(nf + 1), "p": (0..1 + rng.below(3)).map(|_| rng.below(4) as u64).collect::<Vec<_>>()})
+                    // (now and then the path is empty: a function, but no card in it)
+                    json!({"f": rng.below(nf + 1), "p": (0..rng.below(4)).map(|_| rng.below(4) as u64).collect::<Vec<_>>()})
                 } else {
                     let mut ix = rng.pick(&ixs).clone();
                     if rng.chance(1, 4) {
